@@ -1,8 +1,11 @@
 /-
   Props/C01Full.lean — the module audited for C01: Props/C01.lean together with Props/C01Ieee.lean and
-  Props/C01IeeeWitness.lean (the IEEE instantiation of the encoder's no-panic condition). All in namespace Rosu.C01.
+  Props/C01IeeeWitness.lean (the IEEE instantiation of the encoder's no-panic condition) and Props/C01IeeeSurplus.lean
+  (the Catmull hypothesis weakened to one covered debt; two-debt counterexample). All in namespace Rosu.C01.
 -/
 import RosuModel.Props.C01
 import RosuModel.Props.C01Ieee
 import RosuModel.Props.C01IeeeWitness
 import RosuModel.Props.C01IeeeFuel
+import RosuModel.Props.C01IeeeSurplus
+import RosuModel.Props.C01IeeeSurplusLoop
